@@ -99,7 +99,11 @@ impl Drop for QuietGuard {
 pub fn silence_panics() {
     let default = std::panic::take_hook();
     std::panic::set_hook(Box::new(move |info| {
-        if QUIET.with(|q| q.get()) == 0 {
+        let text = format!("{info}");
+        if text.contains("unsafe precondition") || text.contains("misaligned pointer") || text.contains("null pointer dereference") {
+            // non-unwinding panics raised by std's debug checks of unsafe preconditions: the process aborts
+            eprintln!("NON-UNWINDING PANIC (process aborts): {text}");
+        } else if QUIET.with(|q| q.get()) == 0 {
             default(info);
         }
     }));
